@@ -206,8 +206,26 @@ impl<'a> Fold<Diagnostic> for TypeResolver<'a> {
                     }
                 }
             }
-            _ => Ok(node),
+            _ => node.recurse_fold(self),
         }
+    }
+
+    fn fold_array_subranges(&mut self, node: ArraySubranges) -> Result<ArraySubranges, Diagnostic> {
+        // The element type of an array is a type like any other: it must be
+        // an elementary type or declared somewhere in the library.
+        if !is_elementary_type(&node.type_name)
+            && !is_unsupported_standard_type(&node.type_name)
+            && self.types.find(&node.type_name).is_none()
+        {
+            self.diagnostics.push(
+                Diagnostic::problem(
+                    Problem::UndeclaredUnknownType,
+                    Label::span(node.type_name.span(), "Array element type"),
+                )
+                .with_context_type("identifier", &node.type_name),
+            );
+        }
+        Ok(node)
     }
 }
 
